@@ -128,7 +128,7 @@ func localStoreLockSpec(c *Ctx, typ string) *LockSpec {
 
 func init() {
 	register(&Rule{
-		ID: "R01.2", Props: []string{"C01", "C03", "C05"}, Engine: "lockstate (go/cfg lockset dataflow with helper preconditions)",
+		ID: "R01.2", Props: []string{"C01", "C03", "C05", "C08", "C10"}, Engine: "lockstate (go/cfg lockset dataflow with helper preconditions)",
 		Text: "in flatBlobAccess and hierarchicalCASBlobAccess: KeyLocationMap.Get, LocationBlobMap.Get and invoking a LocationBlobGetter need the store lock in read or write mode; KeyLocationMap.Put, LocationBlobMap.Put and invoking a LocationBlobPutFinalizer need it in write mode; the lock is released on every exit; helpers that rely on the caller's lock get an entry precondition that every call site must satisfy (so finalizer + index update happen in one uninterrupted write hold); " +
 			"a Location (BlockIndex/OffsetBytes) or LocationBlobGetter obtained during one hold is not used after the lock was released (block indices shift on rotation), nor a getter after LocationBlobMap.Put / a finalizer ran",
 		Floor: 60, MustExist: true,
